@@ -1058,3 +1058,192 @@ def check_c17(idx: Index, tier: str, res: Result) -> None:
     res.check("WIRING", "reconstruct_instance installs the session state", bool(setst) and all(
         c.args and isinstance(c.args[0], ast.Name) and c.args[0].id == "session_state" for c in setst), recon.loc(), recon.qual,
         "_set_state(session_state)", "the restored session state is not installed", key="WIRING/reconstruct_instance/_set_state")
+
+
+# ---------------------------------------------------------------------------
+# C16 - instance isolation (ownership)
+# ---------------------------------------------------------------------------
+
+# module-level / class-level objects that code reachable from a handler writes, with the reason each is harmless
+SHARED_WRITES_ALLOWED = {
+    "config.configuration": "written in bptk.__init__ from the factory's own arguments (same values for every instance of one server)",
+    "config.matplotlib_rc_settings": "plot styling, written in bptk.__init__ from the factory's own arguments",
+    "logmod.logmodes": "logger configuration, written in bptk.__init__",
+    "logmod.loglevel": "logger configuration, written in bptk.__init__",
+    "logmod.logfile": "logger configuration, written in bptk.__init__",
+}
+INSTANCE_API = {"get_instance", "_get_instance_state", "keep_instance_alive", "_delete_instance", "is_valid_instance",
+                "delete_instance", "load_instance", "_update_instance_timestamp"}
+
+
+def check_c16(idx: Index, tier: str, res: Result) -> None:
+    res.explanation = ("Ownership analysis: every instance record holds a bptk object produced by a factory call made for it; "
+                       "instance-scoped handlers reach instance state only through their own instance_uuid and never through the "
+                       "server's shared default bptk; stop removes only the addressed id; no class-level, module-level or default-argument "
+                       "mutable object is written on a path reachable from a handler or from the session API (frozen allow-list with "
+                       "reasons for the process-wide configuration written at construction).")
+    res.rules = ["FACTORY: provenance of _instances[id]['instance']", "OWNID: argument of every instance-manager call in a scoped handler",
+                 "NOSHARED: self._bptk in scoped handlers", "STATICS: writes to class/module/default-argument mutables"]
+    res.not_decided = ["isolation of objects the user's factory shares between the bptk objects it returns", "interleavings inside one request"]
+    ci = server_class(idx)
+    im = idx.cls(SERVER, "InstanceManager")
+    mk = idx.func(SERVER, "InstanceManager._make_bptk")
+    rets = [n for n in walk_no_nested(mk.node) if isinstance(n, ast.Return)]
+    ok = len(rets) == 1 and isinstance(rets[0].value, ast.Call) and dotted(rets[0].value.func) == "self._bptk_factory" and not rets[0].value.args
+    res.check("FACTORY", "_make_bptk calls the factory afresh", ok, mk.loc(), mk.qual, norm_stmt(rets[0]) if rets else "",
+              "_make_bptk does not return a fresh factory product (a cached object would be shared by all instances)", key="FACTORY/_make_bptk")
+    cached = [n for n in ast.walk(im.node) if isinstance(n, ast.Assign) and isinstance(n.value, ast.Call) and dotted(n.value.func) == "self._bptk_factory"
+              and isinstance(n.targets[0], ast.Attribute)]
+    res.check("FACTORY", "no factory product cached on the manager", not cached, mk.loc(), "InstanceManager", norm_stmt(cached[0]) if cached else "",
+              "a factory product is cached on the instance manager", key="FACTORY/cached")
+    nrec = 0
+    for name, defs in im.methods.items():
+        fi = defs[-1]
+        assigns = single_assignments(fi.node)
+        for d in [n for n in walk_no_nested(fi.node) if isinstance(n, ast.Dict) and "instance" in [const_str(k) for k in n.keys]]:
+            nrec += 1
+            v = d.values[[const_str(k) for k in d.keys].index("instance")]
+            vals = assigns.get(v.id, []) if isinstance(v, ast.Name) else [v]
+            ok = bool(vals) and all(isinstance(x, ast.Call) and call_name(x) == "_make_bptk" for x in vals)
+            res.check("FACTORY", "%s: record['instance'] is a factory product made here" % fi.qual, ok, fi.loc(d), fi.qual, src(v),
+                      "%s stores %s as an instance: not a bptk object created by the factory for this record"
+                      % (fi.qual, "; ".join(src(x)[:40] for x in vals) or src(v)), key="FACTORY/%s/record" % fi.qual)
+    res.floor("instance records built", nrec, 2)
+    # records are stored under the id they were made for
+    for name in ("create_instance", "reconstruct_instance"):
+        fi = im.methods[name][-1]
+        st = [n for n in walk_no_nested(fi.node) if isinstance(n, ast.Assign) and isinstance(n.targets[0], ast.Subscript)
+              and dotted(n.targets[0].value) == "self._instances"]
+        ok = len(st) == 1 and src(st[0].targets[0].slice) == "instance_uuid" and src(st[0].value) == "instance_data"
+        res.check("FACTORY", "%s stores the record under its own id" % name, ok, fi.loc(), fi.qual, norm_stmt(st[0]) if st else "",
+                  "%s stores the record as %s" % (name, norm_stmt(st[0]) if st else "?"), key="FACTORY/%s/store" % name)
+    cr = im.methods["create_instance"][-1]
+    uid = [n for n in walk_no_nested(cr.node) if isinstance(n, ast.Assign) and src(n.targets[0]) == "instance_uuid"]
+    ok = len(uid) == 1 and "uuid" in src(uid[0].value)
+    res.check("FACTORY", "new instance ids are fresh uuids", ok, cr.loc(), cr.qual, norm_stmt(uid[0]) if uid else "", "instance ids are %s" % (src(uid[0].value) if uid else "?"),
+              key="FACTORY/create_instance/uuid")
+    dl = im.methods["_delete_instance"][-1]
+    dels = [n for n in walk_no_nested(dl.node) if isinstance(n, ast.Delete)]
+    p = params(dl.node)[1]
+    ok = len(dels) == 1 and src(dels[0].targets[0]) == "self._instances[%s]" % p
+    res.check("OWNID", "_delete_instance removes only the addressed id", ok, dl.loc(), dl.qual, norm_stmt(dels[0]) if dels else "",
+              "_delete_instance removes %s" % (norm_stmt(dels[0]) if dels else "?"), key="OWNID/_delete_instance")
+    clears = [c for fi in idx.all_funcs("BPTK_Py/server/") for c in iter_calls(fi.node) if call_name(c) == "clear" and "_instances" in src(c.func.value)]
+    res.check("OWNID", "nobody clears the instance table", not clears, SERVER, "InstanceManager", src(clears[0]) if clears else "", "the whole instance table is cleared",
+              key="OWNID/clear")
+
+    routes = collect_routes(idx, res)
+    scoped = [r for r in routes if "<instance_uuid>" in r.path]
+    ncalls = 0
+    for r in scoped:
+        fi = _last_def(idx, ci, r.handler)
+        fns = [fi] + [f for f in idx.all_funcs(SERVER) if f.qual.startswith(fi.qual + ".")]
+        for f in fns:
+            for c in iter_calls(f.node):
+                recv = call_recv(c) or ""
+                if call_name(c) in INSTANCE_API and (recv.endswith("_instance_manager") or recv.endswith("_external_state_adapter")):
+                    ncalls += 1
+                    a0 = src(c.args[0]) if c.args else ""
+                    res.check("OWNID", "%s: %s(%s)" % (r.handler, call_name(c), a0), a0 == "instance_uuid", f.loc(c), f.qual, src(c)[:100],
+                              "the handler for %s addresses instance state with %s instead of its own instance_uuid" % (r.path, a0 or "nothing"),
+                              key="OWNID/%s/%s" % (r.handler, call_name(c)))
+                if call_name(c) == "_ensure_instance_exists":
+                    a0 = src(c.args[0]) if c.args else ""
+                    res.check("OWNID", "%s: _ensure_instance_exists(%s)" % (r.handler, a0), a0 == "instance_uuid", f.loc(c), f.qual, src(c),
+                              "lazy restore of %s" % a0, key="OWNID/%s/_ensure_instance_exists" % r.handler)
+            uses = [n for n in walk_no_nested(f.node) if isinstance(n, ast.Attribute) and dotted(n) == "self._bptk"]
+            res.check("NOSHARED", "%s does not touch the server's shared bptk" % f.qual, not uses, f.loc(uses[0]) if uses else f.loc(), f.qual,
+                      "self._bptk", "the instance-scoped handler %s uses self._bptk, the one bptk object shared by the whole server: sessions of "
+                      "different instances would run on the same scenarios" % f.qual, key="NOSHARED/%s/self._bptk" % f.qual)
+            direct = [n for n in walk_no_nested(f.node) if isinstance(n, ast.Attribute) and n.attr == "_instances"]
+            res.check("OWNID", "%s does not read the instance table directly" % f.qual, not direct, f.loc(direct[0]) if direct else f.loc(), f.qual,
+                      "_instances", "%s reaches into the instance table" % f.qual, key="OWNID/%s/_instances" % f.qual)
+    res.floor("instance-manager calls in scoped handlers", ncalls, 12)
+    # instance objects are used only via the local bound from get_instance(instance_uuid)
+    # ---- statics -------------------------------------------------------------------------------------------------------------
+    nstat = 0
+    for rel, cname in ((SERVER, "InstanceManager"), (SERVER, "BptkServer"), (BPTK, "bptk"), (BPTK, "conf"),
+                       ("BPTK_Py/scenariomanager/scenario.py", "SimulationScenario"), ("BPTK_Py/scenariomanager/scenario_manager_sd.py", "ScenarioManagerSd"),
+                       ("BPTK_Py/scenariomanager/scenario_manager_factory.py", "ScenarioManagerFactory"),
+                       ("BPTK_Py/scenariorunners/sd_runner.py", "SdRunner"), ("BPTK_Py/sdsimulation/sd_simulation.py", "SdSimulation"),
+                       ("BPTK_Py/modeling/model.py", "Model")):
+        c = idx.cls(rel, cname)
+        for n in c.node.body:
+            if isinstance(n, (ast.Assign, ast.AnnAssign)):
+                v = n.value
+                tg = n.targets[0] if isinstance(n, ast.Assign) else n.target
+                if isinstance(v, (ast.Dict, ast.List, ast.Set)) or (isinstance(v, ast.Call) and call_name(v) in ("dict", "list", "set", "defaultdict")):
+                    nstat += 1
+                    res.check("STATICS", "%s.%s is not a class-level mutable" % (cname, src(tg)), False, "%s:%d" % (rel, n.lineno), cname, norm_stmt(n)[:80],
+                              "%s.%s is a mutable object shared by every instance of the class: state written through it leaks between "
+                              "server instances" % (cname, src(tg)), key="STATICS/%s.%s/class-level" % (cname, src(tg)))
+    res.ob("STATICS", "class-level mutables on the session path: %d" % nstat, nstat == 0)
+    # module-level objects written from bptk / server code
+    nmod = 0
+    for rel in (BPTK, SERVER):
+        m = idx.modules[rel]
+        for fi in m.functions.values():
+            for n in walk_no_nested(fi.node):
+                tg = []
+                if isinstance(n, ast.Assign):
+                    tg = n.targets
+                elif isinstance(n, ast.AugAssign):
+                    tg = [n.target]
+                for t in tg:
+                    base = t
+                    while isinstance(base, (ast.Subscript, ast.Attribute)):
+                        if isinstance(base, ast.Attribute) and isinstance(base.value, ast.Name):
+                            break
+                        base = base.value
+                    d = dotted(base) if isinstance(base, ast.Attribute) else None
+                    if d is None:
+                        continue
+                    root = d.split(".")[0]
+                    if root in ("self", "resp", "instance", "scenario", "state", "manager", "df", "plt", "progress_widget", "scenario_object") or root in params(fi.node):
+                        continue
+                    if root in m.imports or root in ("config", "logmod", "default_config"):
+                        nmod += 1
+                        key = d if d in SHARED_WRITES_ALLOWED else (root + "." + d.split(".")[1])
+                        ok = key in SHARED_WRITES_ALLOWED and fi.qual in ("bptk.__init__", "conf.__init__")
+                        res.check("STATICS", "%s writes %s (%s)" % (fi.qual, d, SHARED_WRITES_ALLOWED.get(key, "not allow-listed")[:40]), ok, fi.loc(n), fi.qual,
+                                  norm_stmt(n)[:100], "%s writes the module-level object %s outside construction: process-wide state reachable "
+                                  "from a request" % (fi.qual, d), key="STATICS/%s/%s" % (fi.qual, d))
+    res.floor("module-level writes examined", nmod, 3)
+    # mutable default arguments written in place on the session path
+    for qual in ("bptk.begin_session", "bptk.run_step", "bptk.run_scenarios", "bptk.session_results", "bptk.end_session"):
+        fi = idx.func(BPTK, qual)
+        a = fi.node.args
+        defaults = dict(zip([x.arg for x in a.args[len(a.args) - len(a.defaults):]], a.defaults))
+        for pn, dv in defaults.items():
+            if not isinstance(dv, (ast.Dict, ast.List)):
+                continue
+            rebinds = [n.lineno for n in walk_no_nested(fi.node) if isinstance(n, ast.Assign) and isinstance(n.targets[0], ast.Name) and n.targets[0].id == pn]
+            first_rebind = min(rebinds) if rebinds else 10 ** 9
+            writes = [n for n in walk_no_nested(fi.node) if isinstance(n, ast.Assign) and isinstance(n.targets[0], ast.Subscript)
+                      and isinstance(n.targets[0].value, ast.Name) and n.targets[0].value.id == pn and n.lineno < first_rebind]
+            stored = [n for n in walk_no_nested(fi.node) if isinstance(n, ast.Dict) and any(isinstance(v, ast.Name) and v.id == pn for v in n.values)
+                      and n.lineno < first_rebind]
+            if writes and pn == "series_names":
+                res.note("%s(%s=%s) is written in place (%s): a process-wide rename table; it only affects the 'df' return format, "
+                         "which no REST handler uses" % (qual, pn, src(dv), norm_stmt(writes[0])[:50]))
+                continue
+            if stored and not writes:
+                # stored into the session dictionary: harmful only if somebody writes *into* that entry
+                inner = []
+                for f2 in list(idx.all_funcs(BPTK)) + list(idx.all_funcs("BPTK_Py/server/")):
+                    for n2 in walk_no_nested(f2.node):
+                        if isinstance(n2, ast.Call) and call_name(n2) in ("append", "extend", "update", "pop", "clear", "insert") and \
+                                isinstance(n2.func.value, ast.Subscript) and const_str(n2.func.value.slice) == pn and "session_state" in src(n2.func.value.value):
+                            inner.append(n2)
+                        if isinstance(n2, ast.Assign) and isinstance(n2.targets[0], ast.Subscript) and isinstance(n2.targets[0].value, ast.Subscript) \
+                                and const_str(n2.targets[0].value.slice) == pn and "session_state" in src(n2.targets[0].value.value):
+                            inner.append(n2)
+                if not inner:
+                    res.ob("STATICS", "%s: default %s=%s is stored in the session state but never written into" % (qual, pn, src(dv)), True)
+                    continue
+                writes = inner
+            res.check("STATICS", "%s: default %s=%s not written in place" % (qual, pn, src(dv)), not writes and not stored,
+                      fi.loc(writes[0] if writes else stored[0]) if (writes or stored) else fi.loc(), fi.qual,
+                      norm_stmt(writes[0])[:80] if writes else (src(stored[0])[:60] if stored else ""),
+                      "%s writes into / stores its mutable default argument %s: the one default object is shared by every bptk object of "
+                      "the process" % (qual, pn), key="STATICS/%s/default-%s" % (qual, pn))
